@@ -31,6 +31,75 @@ def lambda_ret(l):
     return None
 
 
+def _module_function(mod, name):
+    for st in mod.tree.body:
+        if isinstance(st, ast.FunctionDef) and st.name == name:
+            return st
+    return None
+
+
+def as_lambda(expr, mod, depth=0):
+    """a map entry as `lambda key, val: (k, v)`: a lambda stays; a module-level function with a single `return k, v` is
+    turned into one; a lambda / function whose body just calls such a function has the call replaced by its body"""
+    import copy
+    if isinstance(expr, ast.Name) and depth < 3:
+        fn = _module_function(mod, expr.id)
+        if fn is not None:
+            body = [s for s in fn.body if not (isinstance(s, ast.Expr) and isinstance(s.value, ast.Constant))]
+            if len(body) == 1 and isinstance(body[0], ast.Return) and body[0].value is not None and not fn.args.vararg and not fn.args.kwarg:
+                lam = ast.Lambda(args=copy.deepcopy(fn.args), body=copy.deepcopy(body[0].value))
+                ast.copy_location(lam, fn)
+                ast.fix_missing_locations(lam)
+                return as_lambda(lam, mod, depth + 1)
+        return expr
+    if isinstance(expr, ast.Lambda) and isinstance(expr.body, ast.Call) and isinstance(expr.body.func, ast.Name) and depth < 3 and not expr.body.keywords:
+        inner = as_lambda(expr.body.func, mod, depth + 1)
+        if isinstance(inner, ast.Lambda) and len(inner.args.args) == len(expr.body.args):
+            m = {a.arg: v for a, v in zip(inner.args.args, expr.body.args)}
+
+            class Sub(ast.NodeTransformer):
+                def visit_Name(self, n):
+                    if n.id in m and isinstance(n.ctx, ast.Load):
+                        return copy.deepcopy(m[n.id])
+                    return n
+            lam = ast.Lambda(args=copy.deepcopy(expr.args), body=Sub().visit(copy.deepcopy(inner.body)))
+            ast.copy_location(lam, expr)
+            ast.fix_missing_locations(lam)
+            return lam
+    return expr
+
+
+def map_entries(node, repo, mod):
+    """{key: entry expr} of a property map written as a dict literal or as dict(<dict | dict.fromkeys(KEYS, f)>, k=v, ...)"""
+    out = {}
+    if isinstance(node, ast.Dict):
+        for k, v in zip(node.keys, node.values):
+            if not isinstance(k, ast.Constant):
+                return None
+            out[k.value] = v
+        return out
+    if isinstance(node, ast.Call) and isinstance(node.func, ast.Name) and node.func.id == "dict" and len(node.args) <= 1:
+        if node.args:
+            a = node.args[0]
+            if isinstance(a, ast.Call) and unparse(a.func) == "dict.fromkeys" and len(a.args) == 2:
+                keys = alts(Evaluator(repo, mod, None).ev(a.args[0]))
+                if not keys or len(keys) != 1 or not isinstance(keys[0], (tuple, list)):
+                    return None
+                for k in keys[0]:
+                    out[k] = a.args[1]
+            else:
+                base = map_entries(a, repo, mod)
+                if base is None:
+                    return None
+                out.update(base)
+        for kw in node.keywords:
+            if kw.arg is None:
+                return None
+            out[kw.arg] = kw.value
+        return out
+    return None
+
+
 def calls_named(e, name):
     return [c for c in ast.walk(e) if isinstance(c, ast.Call) and (
         (isinstance(c.func, ast.Attribute) and c.func.attr == name) or (isinstance(c.func, ast.Name) and c.func.id == name))]
@@ -58,11 +127,13 @@ def rule_maps(ctx):
         return
     kw = {k.arg: k.value for k in props[0].keywords}
     fm, rm = kw.get("transform_map"), kw.get("reverse_map")
-    if not (isinstance(fm, ast.Dict) and isinstance(rm, ast.Dict)):
-        ctx.undecided("C19.maps", w, props[0], "transform_map / reverse_map are not dict literals")
+    f = map_entries(fm, repo, cls.module) if fm is not None else None
+    r = map_entries(rm, repo, cls.module) if rm is not None else None
+    if f is None or r is None:
+        ctx.undecided("C19.maps", w, props[0], "transform_map / reverse_map are not dict literals (or dict(...) over constant keys)")
         return
-    f = {k.value: v for k, v in zip(fm.keys, fm.values) if isinstance(k, ast.Constant)}
-    r = {k.value: v for k, v in zip(rm.keys, rm.values) if isinstance(k, ast.Constant)}
+    f = {k: as_lambda(v, cls.module) for k, v in f.items()}
+    r = {k: as_lambda(v, cls.module) for k, v in r.items()}
     ctx.check("C19.maps", set(f) == set(r), w, "map key sets", "forward map has %s, reverse map has %s: a field is encoded but never decoded (or vice versa)" % (sorted(set(f) - set(r)), sorted(set(r) - set(f))), "same %d keys" % len(f))
     for key in sorted(set(f) & set(r)):
         fr, rr = lambda_ret(f[key]), lambda_ret(r[key])
@@ -328,6 +399,8 @@ def rule_atomic_dir(ctx):
     ev = Evaluator(repo, st.module, st)
     wpd = repo.method(TOOLS, "StorageTools", "writeProfileData")
     w = where(TOOLS, "StorageTools.writeProfileData", wpd.lineno)
+    from ..repo import inline_private_calls
+    wpd = inline_private_calls(repo, st, wpd)         # a private "write to a sibling, then rename" helper is part of it
     # the chain save -> writeProfileConfig -> writeProfileData
     save = repo.method(MGR, "ConfigManager", "save")
     wpc = repo.method(TOOLS, "StorageTools", "writeProfileConfig")
@@ -474,6 +547,14 @@ def rule_atomic_dir(ctx):
                         if isinstance(c, ast.Call) and isinstance(c.func, ast.Name) and c.func.id == "open":
                             self.opened.append((c, self.ev(c.args[0], env)))
                     self.block(s.body, env)
+                elif isinstance(s, ast.Try):
+                    r = self.block(s.body, env)
+                    if r is not None:
+                        return r
+                    r = self.block(s.orelse, env) if s.orelse else None
+                    if r is not None:
+                        return r
+                    self.block(s.finalbody, env)
                 elif isinstance(s, ast.Return):
                     return self.ev(s.value, env) if s.value is not None else None
             return None
